@@ -29,7 +29,7 @@ def run_all(chk, groups, tier):
     # second chance for obligations that came back `unknown` while all cores were busy: re-run (at most four) such units one after the other
     # with a three times larger budget; a verdict other than `unknown` replaces the first one, nothing else changes
     flaky = [i for i, r in enumerate(res) if not r.get("unsupported") and not r.get("crash")
-             and any(o.get("status") == "unknown" for o in r.get("obligations", []))]
+             and 1 <= sum(o.get("status") == "unknown" for o in r.get("obligations", [])) <= 3]          # many unknowns: a changed function, not load
     if 1 <= len(flaky) <= 4 and not os.environ.get("VERIF_NO_RETRY"):
         os.environ["VERIF_LONG"] = "1"
         try:
